@@ -12,4 +12,8 @@ var plans = map[string]propPlan{
 		Rule:        "a run = one generated scenario (provider kind and capacities, cold/drained cache, entry point, recovery switch, 2-6 client tasks x 1-3 requests of kinds get/post-gzip/post-deflate/post-trunc/notfound/panic/early-close, payload and chunk sizes) executed under one seeded schedule (preemption at every provider call, writer call, body read, handler step); distinct = distinct (scenario hash, schedule-trace hash); non-trivial = a preemption happened while a pooled object was held, or a fault (truncated body, panic, early close) fired",
 		Assumptions: []string{"sync.Pool's choice of object is outside the simulator; with that provider only identity-free verdicts are drawn", "between two yield points code runs atomically; torn accesses are left to the race detector's happens-before analysis", "a clean batch is evidence, not proof"},
 		Real:        realAll, Stub: stubAll, NotInjected: notInjected, QuickWallCap: 60 * time.Second, ThoroughCap: 20 * time.Minute},
+	"C12": {UseRace: true, Level: "exploration", QuickRuns: 16000, QuickRace: 3000, ThoroughRuns: 300000, ThoroughRace: 60000,
+		Rule:        "a run = one generated scenario (router, entry point, trace on/off, 2-4 services on colliding roots with initial and pool routes, 1-2 admin tasks owning disjoint services and toggling membership/routes, 1-3 client tasks x 1-5 requests) executed under one seeded schedule with preemption at every lock hook, trace-logger call, If-condition, handler and writer call; distinct = distinct (scenario hash, schedule-trace hash); non-trivial = a request interval overlapped an admin operation or a lock probe found the lock taken",
+		Assumptions: []string{"linearizability is checked with porcupine against the registration model with fresh-container outcomes; a timeout (Unknown) is counted as inconclusive and never reported", "between two yield points code runs atomically; torn accesses are left to the race detector's happens-before analysis", "a clean batch is evidence, not proof"},
+		Real:        append([]string{"porcupine v1.3.0 linearizability checker"}, realAll...), Stub: stubAll, NotInjected: notInjected, QuickWallCap: 60 * time.Second, ThoroughCap: 20 * time.Minute},
 }
